@@ -371,7 +371,7 @@ func init() {
 	})
 	register(&checkSpec{
 		ID:   "C41",
-		Rule: "a connection from the real NewConn over harness reader/writer ends; one writer (W writes of symbolic bytes), one reader (R reads), optionally one closer run as interpreted goroutines next to the two feeder goroutines; every scheduling decision at a channel / select / mutex operation and every choice among ready select cases is a symbolic variable the explorer forks over; checked at quiescence: delivery in order and unmodified, EOF for I/O pending or started after Close, nothing left blocked after Close",
+		Rule: "a connection from the real NewConn over harness reader/writer ends; one writer (W writes of symbolic bytes), one reader (R reads), optionally one or two concurrent closers run as interpreted goroutines next to the two feeder goroutines; every scheduling decision at a channel / select / mutex operation and every choice among ready select cases is a symbolic variable the explorer forks over; checked at quiescence: delivery in order and unmodified, EOF for I/O pending or started after Close, nothing left blocked after Close",
 		Assumptions: []string{
 			"bound: W writes, R reads, at most PB pre-emptive context switches per schedule (CHESS-style); unbuffered channels are modelled as rendezvous between parked offers",
 			"a Write that was pending when Close came may report EOF although its data reached the underlying writer (allowed by the statement)",
@@ -382,6 +382,8 @@ func init() {
 				Quick: map[string]int{"W": 1, "R": 0, "CLOSE": 1, "PB": 1}, Thorough: map[string]int{"W": 1, "R": 0, "CLOSE": 1, "PB": 2}, MaxSteps: 3_000_000},
 			{Name: "VxC41", Pkg: "github.com/goplus/xgo/x/fakenet", Files: []string{"c41/c41.go", "gen:instrument"}, Goroutine: true,
 				Quick: map[string]int{"W": 0, "R": 1, "CLOSE": 1, "PB": 1}, Thorough: map[string]int{"W": 0, "R": 1, "CLOSE": 1, "PB": 2}, MaxSteps: 3_000_000},
+			{Name: "VxC41", Pkg: "github.com/goplus/xgo/x/fakenet", Files: []string{"c41/c41.go", "gen:instrument"}, Goroutine: true,
+				Quick: map[string]int{"W": 0, "R": 0, "CLOSE": 2, "PB": 2}, Thorough: map[string]int{"W": 1, "R": 0, "CLOSE": 2, "PB": 1}, MaxSteps: 3_000_000},
 			{Name: "VxC41", Pkg: "github.com/goplus/xgo/x/fakenet", Files: []string{"c41/c41.go", "gen:instrument"}, Goroutine: true,
 				Quick: map[string]int{"W": 2, "R": 0, "CLOSE": 0, "PB": 2}, Thorough: map[string]int{"W": 1, "R": 1, "CLOSE": 1, "PB": 1}, MaxSteps: 3_000_000},
 			{Name: "VxC41", Pkg: "github.com/goplus/xgo/x/fakenet", Files: []string{"c41/c41.go", "gen:instrument"}, Goroutine: true,
